@@ -2,6 +2,7 @@ package dialog
 
 import (
 	"flag"
+	"fmt"
 	"os"
 	"strconv"
 	"strings"
@@ -218,8 +219,25 @@ func TestC15(t *testing.T) {
 	})
 }
 
-const ruleC12 = "schedules owned by the harness: a holder (drc or do-approve, approve or compare, device given as absolute path / relative path / ipv6 path / name) is started against sshdev and parked before reading dialogue line p (before login, after login, during config read, between change commands, before save, after save); while it is parked 1-3 contenders of all front-end x spelling combinations run to completion; then the holder is released or SIGKILLed and a follower is started; plus a stress arm that starts 2-4 runs at once (OS-owned schedule); " +
+const ruleC12 = "schedules owned by the harness: a holder (drc or do-approve, approve or compare, device given as absolute path / relative path / ipv6 path / name) is started against sshdev and parked before reading dialogue line p (before login, after login, during config read, between change commands, before save, after save), in one of four ASA/IOS cases on a device configuration of more than 4000 lines (long session with much allocation between taking the lock and the contender's start); while it is parked 1-3 contenders of all front-end x spelling combinations run to completion; then the holder is released or SIGKILLed and a follower is started; plus a stress arm that starts 2-4 runs at once (OS-owned schedule); " +
 	"non-trivial = at least one contender ran while the holder was parked after lock acquisition (stress arm: at least one run was refused); distinct = hash of the schedule"
+
+// bigUnmanagedACL is an unbound ACL without generated name (outside
+// Netspoc's scope, never changed) of n lines.
+func bigUnmanagedACL(fam string, n int) string {
+	var b strings.Builder
+	if fam == "ios" {
+		b.WriteString("ip access-list extended big_manual_acl\n")
+	}
+	for i := 0; i < n; i++ {
+		if fam == "ios" {
+			fmt.Fprintf(&b, " permit ip host 10.%d.%d.1 any\n", 100+i/250, i%250)
+		} else {
+			fmt.Fprintf(&b, "access-list big_manual_acl extended permit ip host 10.%d.%d.1 any4\n", 100+i/250, i%250)
+		}
+	}
+	return b.String()
+}
 
 func drawInvocation(rt *rapid.T, label string) Invocation {
 	inv := Invocation{Front: rapid.SampledFrom([]string{"drc", "do-approve"}).Draw(rt, label+"front"),
@@ -237,6 +255,12 @@ func TestC12(t *testing.T) {
 		fam := rapid.SampledFrom([]string{"asa", "ios", "linux"}).Draw(rt, "family")
 		sc := genBase(rt, fam)
 		ls := &LockScenario{Family: fam, Device: sc.Device, Routes: sc.Routes, Target: sc.Target["router"]}
+		// A long session on a big configuration: the holder allocates (and
+		// collects) a lot between taking the lock and the contender's start.
+		if fam != "linux" && rapid.IntRange(0, 3).Draw(rt, "bigConfig") == 0 {
+			ls.Device += bigUnmanagedACL(fam, 4000)
+			ev.Class("c12:big-config")
+		}
 		ls.Holder = drawInvocation(rt, "holder")
 		if ls.Holder.Spell == "ipv6" {
 			ls.Holder.Spell = "abs" // the holder must be able to run
